@@ -182,4 +182,451 @@ theorem load_linear_shape (rs : Repo) (b : Branch) (depth : Int) (g : Hdr)
   simp only [List.getElem?_cons_zero, Option.getD_some, hlph, ↓reduceIte, List.nil_append]
   rfl
 
+/-! ### height maps built by folding `set` over a header list -/
+
+/-- folding `set id ↦ base + index` over headers with pairwise distinct ids: a listed id gets its
+    position, an unlisted one keeps what it had. -/
+theorem get?_foldl_zipIdx (hs : List HData) (hnd : (hs.map (·.hdr.id)).Nodup) (base : Int) (n : Nat) (m0 : HMap) (id : Nat) :
+    ((hs.zipIdx n).foldl (fun m (x : HData × Nat) => HMap.set m x.1.hdr.id (base + (x.2 : Int))) m0).get? id =
+      match hs.findIdx? (fun d => d.hdr.id == id) with
+      | some k => some (base + ((n + k : Nat) : Int))
+      | none => m0.get? id := by
+  induction hs generalizing n m0 with
+  | nil => simp
+  | cons d rest ih =>
+    simp only [List.zipIdx_cons, List.foldl_cons, List.findIdx?_cons]
+    simp only [List.map_cons, List.nodup_cons] at hnd
+    rw [ih hnd.2]
+    by_cases hd : d.hdr.id = id
+    · have hb : (d.hdr.id == id) = true := by simpa using hd
+      simp only [hb, ↓reduceIte]
+      -- the id does not occur in the rest
+      have hnone : rest.findIdx? (fun d => d.hdr.id == id) = none := by
+        rw [List.findIdx?_eq_none_iff]
+        intro x hx
+        have : x.hdr.id ≠ d.hdr.id := by
+          intro he
+          exact hnd.1 (List.mem_map.mpr ⟨x, hx, he⟩)
+        simpa [hd] using this
+      rw [hnone]
+      simp only [HMap.get?_set, hd, ↓reduceIte, Nat.add_zero]
+    · have hb : (d.hdr.id == id) = false := by simpa using hd
+      simp only [hb, Bool.false_eq_true, ↓reduceIte]
+      cases hf : rest.findIdx? (fun d => d.hdr.id == id) with
+      | none =>
+        simp only [Option.map_none, HMap.get?_set]
+        have : id ≠ d.hdr.id := fun h => hd h.symm
+        simp only [this, ↓reduceIte]
+      | some k =>
+        simp only [Option.map_some]
+        congr 2
+        omega
+
+theorem findIdx?_id_some (hs : List HData) (id k : Nat) (d : HData) (hnd : (hs.map (·.hdr.id)).Nodup)
+    (hk : hs[k]? = some d) (hid : d.hdr.id = id) : hs.findIdx? (fun d => d.hdr.id == id) = some k := by
+  rw [List.findIdx?_eq_some_iff_getElem]
+  have hlt : k < hs.length := getElem?_lt _ _ _ hk
+  refine ⟨hlt, ?_, ?_⟩
+  · have : hs[k] = d := by
+      have := List.getElem?_eq_getElem hlt
+      rw [hk] at this
+      exact (Option.some.inj this).symm
+    simp [this, hid]
+  · intro j hj
+    have hjlt : j < hs.length := by omega
+    simp only [Bool.not_eq_true, beq_eq_false_iff_ne, ne_eq]
+    intro he
+    -- two positions with the same id
+    have hj' : j < (hs.map (·.hdr.id)).length := by simpa using hjlt
+    have hk' : k < (hs.map (·.hdr.id)).length := by simpa using hlt
+    have hkd : hs[k] = d := by
+      have := List.getElem?_eq_getElem hlt
+      rw [hk] at this
+      exact (Option.some.inj this).symm
+    have heq : (hs.map (·.hdr.id))[j] = (hs.map (·.hdr.id))[k] := by
+      simp only [List.getElem_map, he, hkd, hid]
+    have := (List.getElem_inj (h₀ := hj') (h₁ := hk') hnd).mp heq
+    omega
+
+theorem findIdx?_id_none (hs : List HData) (id : Nat) (h : ∀ (k : Nat) (d : HData), hs[k]? = some d → d.hdr.id ≠ id) :
+    hs.findIdx? (fun d => d.hdr.id == id) = none := by
+  rw [List.findIdx?_eq_none_iff]
+  intro x hx
+  obtain ⟨k, hk⟩ := List.getElem?_of_mem hx
+  simpa using h k x hk
+
+/-! ### `loadHistoricalHashHeights` -/
+
+theorem slice_getElem? {α : Type} (l : List α) (f i : Nat) (hi : i < H) :
+    ((l.drop (f * H)).take H)[i]? = l[f * H + i]? := by
+  rw [List.getElem?_take]
+  simp only [hi, ↓reduceIte, List.getElem?_drop]
+
+theorem nodup_slice (hs : List HData) (hnd : (hs.map (·.hdr.id)).Nodup) (f : Nat) :
+    ((((hs.drop (f * H)).take H)).map (·.hdr.id)).Nodup := by
+  rw [List.map_take, List.map_drop]
+  exact (hnd.sublist (List.drop_sublist _ _)).sublist (List.take_sublist _ _)
+
+/-- the heights a header list determines: the position of the id, if it occurs. -/
+def posOf (hs : List HData) (id : Nat) : Option Nat := hs.findIdx? (fun d => d.hdr.id == id)
+
+theorem posOf_slice (hs : List HData) (hnd : (hs.map (·.hdr.id)).Nodup) (f : Nat) (id : Nat) :
+    posOf ((hs.drop (f * H)).take H) id =
+      match posOf hs id with
+      | some k => if f * H ≤ k ∧ k < f * H + H then some (k - f * H) else none
+      | none => none := by
+  unfold posOf
+  cases hk : hs.findIdx? (fun d => d.hdr.id == id) with
+  | none =>
+    simp only
+    rw [List.findIdx?_eq_none_iff] at hk
+    apply findIdx?_id_none
+    intro j d hj
+    have hjlt : j < H := by
+      have := getElem?_lt _ _ _ hj
+      simp only [List.length_take] at this
+      omega
+    rw [slice_getElem? hs f j hjlt] at hj
+    have := hk d (List.mem_of_getElem? hj)
+    simpa using this
+  | some k =>
+    simp only
+    rw [List.findIdx?_eq_some_iff_getElem] at hk
+    obtain ⟨hklt, hkid, _⟩ := hk
+    have hkid' : hs[k].hdr.id = id := by simpa using hkid
+    by_cases hin : f * H ≤ k ∧ k < f * H + H
+    · simp only [hin, and_self, ↓reduceIte]
+      apply findIdx?_id_some _ id (k - f * H) hs[k] (nodup_slice hs hnd f)
+      · rw [slice_getElem? hs f (k - f * H) (by omega)]
+        have : f * H + (k - f * H) = k := by omega
+        rw [this, List.getElem?_eq_getElem hklt]
+      · exact hkid'
+    · simp only [hin, ↓reduceIte]
+      apply findIdx?_id_none
+      intro j d hj hdid
+      have hjlt : j < H := by
+        have := getElem?_lt _ _ _ hj
+        simp only [List.length_take] at this
+        omega
+      rw [slice_getElem? hs f j hjlt] at hj
+      have := findIdx?_id_some hs id (f * H + j) d hnd hj hdid
+      have hk2 : hs.findIdx? (fun d => d.hdr.id == id) = some k := by
+        rw [List.findIdx?_eq_some_iff_getElem]
+        exact ⟨hklt, hkid, ‹_›⟩
+      rw [hk2] at this
+      simp only [Option.some.injEq] at this
+      omega
+
+/-- the repository with another long-lived height map. -/
+abbrev withHeights (r : Repo) (hm : HMap) : Repo := { r with heights := hm }
+
+theorem loadHistGo_spec (hdrs : List HData) (hnd : (hdrs.map (·.hdr.id)).Nodup) :
+    ∀ (f fuel : Nat) (r : Repo), f + 1 ≤ fuel → FilesExact r.store.main hdrs (f + 1) →
+      ∃ r3, loadHistorical.go fuel f r = .ok r3 ∧ r3.arena = r.arena ∧ r3.branches = r.branches ∧
+        r3.longest = r.longest ∧ r3.store = r.store ∧ r3.invalid = r.invalid ∧ r3.cfg = r.cfg ∧
+        r3.disableDifficulty = r.disableDifficulty ∧ r3.disableSplit = r.disableSplit ∧
+        ∀ id, r3.heights.get? id = match posOf hdrs id with
+          | some k => if k < (f + 1) * H then some (k : Int) else r.heights.get? id
+          | none => r.heights.get? id := by
+  intro f
+  induction f with
+  | zero =>
+    intro fuel r hfuel hfiles
+    obtain ⟨fuel', rfl⟩ : ∃ n, fuel = n + 1 := ⟨fuel - 1, by omega⟩
+    simp only [loadHistorical.go, hfiles 0 (by omega), ↓reduceIte]
+    refine ⟨_, rfl, rfl, rfl, rfl, rfl, rfl, rfl, rfl, rfl, ?_⟩
+    intro id
+    simp only
+    have := get?_foldl_zipIdx ((hdrs.drop (0 * H)).take H) (nodup_slice hdrs hnd 0) (((0 : Nat) : Int) * hpf) 0 r.heights id
+    rw [this]
+    have hp := posOf_slice hdrs hnd 0 id
+    unfold posOf at hp
+    rw [hp]
+    unfold posOf
+    cases hdrs.findIdx? (fun d => d.hdr.id == id) with
+    | none => rfl
+    | some k =>
+      simp only [Nat.zero_mul, Nat.zero_le, true_and, Nat.zero_add, Nat.sub_zero, Nat.one_mul]
+      by_cases hk : k < H
+      · simp only [hk, ↓reduceIte]; congr 1; simp
+      · simp only [hk, ↓reduceIte]
+  | succ f ih =>
+    intro fuel r hfuel hfiles
+    obtain ⟨fuel', rfl⟩ : ∃ n, fuel = n + 1 := ⟨fuel - 1, by omega⟩
+    simp only [loadHistorical.go, hfiles (f + 1) (by omega)]
+    have hne : ¬ (f + 1 = 0) := by omega
+    simp only [hne, ↓reduceIte, Nat.add_sub_cancel]
+    obtain ⟨r3, hgo, h1, h2, h3, h4, h5, h6, h7, h8, hget⟩ := ih fuel'
+      (withHeights r (((((hdrs.drop ((f + 1) * H)).take H)).zipIdx).foldl
+          (fun m (x : HData × Nat) => HMap.set m x.1.hdr.id ((((f + 1 : Nat) : Int)) * hpf + (x.2 : Int))) r.heights))
+      (by omega) (fun g hg => hfiles g (by omega))
+    refine ⟨r3, hgo, h1, h2, h3, h4, h5, h6, h7, h8, ?_⟩
+    intro id
+    rw [hget id]
+    have hfold := get?_foldl_zipIdx ((hdrs.drop ((f + 1) * H)).take H) (nodup_slice hdrs hnd (f + 1))
+      ((((f + 1 : Nat) : Int)) * hpf) 0 r.heights id
+    have hp := posOf_slice hdrs hnd (f + 1) id
+    unfold posOf at hp
+    unfold posOf
+    cases hk : hdrs.findIdx? (fun d => d.hdr.id == id) with
+    | none =>
+      simp only
+      rw [hfold, hp, hk]
+    | some k =>
+      simp only
+      rw [hk] at hp
+      simp only at hp
+      by_cases hlow : k < (f + 1) * H
+      · have : k < (f + 1 + 1) * H := by
+          have : (f + 1 + 1) * H = (f + 1) * H + H := by rw [Nat.add_mul]; omega
+          omega
+        simp only [hlow, this, ↓reduceIte]
+      · simp only [hlow, ↓reduceIte]
+        rw [hfold, hp]
+        by_cases hin : (f + 1) * H ≤ k ∧ k < (f + 1) * H + H
+        · have : k < (f + 1 + 1) * H := by
+            have : (f + 1 + 1) * H = (f + 1) * H + H := by rw [Nat.add_mul]; omega
+            omega
+          simp only [hin, and_self, ↓reduceIte, this, Nat.zero_add]
+          congr 1
+          rw [hpf_eq]
+          have : ((k - (f + 1) * H : Nat) : Int) = (k : Int) - (((f + 1) * H : Nat) : Int) := by omega
+          rw [this]; push_cast; omega
+        · have : ¬ (k < (f + 1 + 1) * H) := by
+            have : (f + 1 + 1) * H = (f + 1) * H + H := by rw [Nat.add_mul]; omega
+            omega
+          simp only [hin, ↓reduceIte, this]
+
+/-! ### the branch read back from the root branch file -/
+
+theorem bof_fields (b : Branch) :
+    (branchOfFile (rootFile b)).parent = none ∧ (branchOfFile (rootFile b)).parentHeight = b.parentHeight ∧
+    (branchOfFile (rootFile b)).offset = b.offset ∧ (branchOfFile (rootFile b)).headers = b.headers ∧
+    (branchOfFile (rootFile b)).first = b.first := ⟨rfl, rfl, rfl, rfl, rfl⟩
+
+theorem bof_hmap (b : Branch) (hph : b.parentHeight = -1) (hoff : b.offset = 1)
+    (hnd : (b.headers.map (·.hdr.id)).Nodup) (id : Nat) :
+    (branchOfFile (rootFile b)).hmap.get? id = (posOf b.headers id).map Int.ofNat := by
+  unfold branchOfFile rootFile
+  simp only
+  have := get?_foldl_zipIdx b.headers hnd (b.parentHeight + b.offset) 0 [] id
+  rw [this]
+  unfold posOf
+  cases b.headers.findIdx? (fun d => d.hdr.id == id) with
+  | none => rfl
+  | some k =>
+    show some (b.parentHeight + b.offset + ((0 + k : Nat) : Int)) = some (k : Int)
+    congr 1; omega
+
+theorem loadedRoot_eq (b : Branch) (depth : Int) (hph : b.parentHeight = -1) (hoff : b.offset = 1)
+    (hd : 0 ≤ depth) (hne : b.headers ≠ []) :
+    loadedRoot b depth = prunedBranch ((b.headers.length : Int) - 1 - depth) (branchOfFile (rootFile b)) := by
+  have hL : 0 < b.headers.length := List.length_pos_iff.mpr hne
+  have hbh : (branchOfFile (rootFile b)).height = (b.headers.length : Int) - 1 := by
+    unfold Branch.height branchOfFile rootFile; simp only; omega
+  have hpl : (branchOfFile (rootFile b)).prunedLowest = 0 := by
+    unfold Branch.prunedLowest branchOfFile rootFile; simp only; omega
+  unfold loadedRoot prunedBranch
+  simp only [hbh, hpl]
+  by_cases h0 : (0 : Int) < (b.headers.length : Int) - 1 - depth
+  · have : (0 : Int) ≤ (b.headers.length : Int) - 1 - depth := by omega
+    simp only [this, h0, ↓reduceIte]
+  · simp only [h0, ↓reduceIte]
+    by_cases h1 : (0 : Int) ≤ (b.headers.length : Int) - 1 - depth
+    · simp only [h1, ↓reduceIte]
+      have : (b.headers.length : Int) - 1 - depth - 0 = 0 := by omega
+      rw [this]
+      unfold pruneBranch
+      have hc : ¬ ((0 : Int) < 0 ∨ (0 : Int) ≥ ((branchOfFile (rootFile b)).headers.length : Int)) := by
+        have : (branchOfFile (rootFile b)).headers.length = b.headers.length := rfl
+        omega
+      simp only [hc, ↓reduceIte, Int.toNat_zero, List.drop_zero, List.take_zero, List.foldl_nil, Int.add_zero]
+    · simp only [h1, ↓reduceIte]
+
+theorem posOf_drop (hs : List HData) (hnd : (hs.map (·.hdr.id)).Nodup) (n : Nat) (id : Nat) :
+    posOf (hs.drop n) id = match posOf hs id with
+      | some k => if n ≤ k then some (k - n) else none
+      | none => none := by
+  unfold posOf
+  have hnd' : ((hs.drop n).map (·.hdr.id)).Nodup := by
+    rw [List.map_drop]; exact hnd.sublist (List.drop_sublist _ _)
+  cases hk : hs.findIdx? (fun d => d.hdr.id == id) with
+  | none =>
+    simp only
+    rw [List.findIdx?_eq_none_iff] at hk
+    apply findIdx?_id_none
+    intro j d hj
+    rw [List.getElem?_drop] at hj
+    have := hk d (List.mem_of_getElem? hj)
+    simpa using this
+  | some k =>
+    simp only
+    have hk' := hk
+    rw [List.findIdx?_eq_some_iff_getElem] at hk
+    obtain ⟨hklt, hkid, _⟩ := hk
+    have hkid' : hs[k].hdr.id = id := by simpa using hkid
+    by_cases hin : n ≤ k
+    · simp only [hin, ↓reduceIte]
+      apply findIdx?_id_some _ id (k - n) hs[k] hnd'
+      · rw [List.getElem?_drop]
+        have : n + (k - n) = k := by omega
+        rw [this, List.getElem?_eq_getElem hklt]
+      · exact hkid'
+    · simp only [hin, ↓reduceIte]
+      apply findIdx?_id_none
+      intro j d hj hdid
+      rw [List.getElem?_drop] at hj
+      have := findIdx?_id_some hs id (n + j) d hnd hj hdid
+      rw [hk'] at this
+      simp only [Option.some.injEq] at this
+      omega
+
+/-- the ids of the headers a branch of a well-formed repository holds are pairwise distinct. -/
+theorem branch_ids_nodup (ar : Arena) (bs : List Nat) (hi : IdWF ar bs) (bi : Nat) (b : Branch)
+    (hb : ar[bi]? = some b) : (b.headers.map (·.hdr.id)).Nodup := by
+  apply nodup_of_idx_inj
+  intro i j x y hx hy heq
+  exact (hi.uniq bi bi b b i j x y hb hb hx hy heq).2
+
+/-- **the loaded repository** (linear chain): shape and the complete long-lived height map. -/
+theorem load_linear_result (rs : Repo) (b : Branch) (depth : Int) (g : Hdr)
+    (hidx : rs.store.index = some [b.first.id]) (hbrs : rs.store.branches = [(b.first.id, rootFile b)])
+    (hph : b.parentHeight = -1) (hoff : b.offset = 1) (hne : b.headers ≠ []) (hd : 0 ≤ depth)
+    (hnd : (b.headers.map (·.hdr.id)).Nodup)
+    (hfiles : FilesExact rs.store.main b.headers (b.headers.length / H + 1))
+    (hgen : ∀ d, b.headers[0]? = some d → rs.cfg.genesisId = d.hdr.id) :
+    ∃ rl, load rs depth g = (rl, none) ∧ rl.arena = [loadedRoot b depth] ∧ rl.branches = [0] ∧ rl.longest = 0 ∧
+      rl.store = rs.store ∧ rl.invalid = mergedInvalid rs.store rs.cfg ∧ rl.cfg = rs.cfg ∧
+      rl.disableDifficulty = rs.disableDifficulty ∧ rl.disableSplit = rs.disableSplit ∧
+      ∀ id, rl.heights.get? id = (posOf b.headers id).map Int.ofNat := by
+  have hL : 0 < b.headers.length := List.length_pos_iff.mpr hne
+  have hH : H = 1000 := rfl
+  rw [load_linear_shape rs b depth g hidx hbrs hph hoff hne hd]
+  -- the in-memory part
+  have hlr := loadedRoot_eq b depth hph hoff hd hne
+  obtain ⟨q1, q2, q3, q4, q5, q6, q7⟩ := root_pruned (branchOfFile (rootFile b)) hph hoff
+    ((b.headers.length : Int) - 1 - depth) (by show _ < ((b.headers.length : Nat) : Int); omega)
+  rw [← hlr] at q1 q2 q3 q4 q5 q6 q7
+  -- lowest in-memory height
+  have hlo : ∃ lo : Nat, (loadedRoot b depth).prunedLowest = (lo : Int) ∧ lo < b.headers.length ∧
+      (loadedRoot b depth).headers = b.headers.drop lo := by
+    rw [hlr]
+    by_cases h0 : (0 : Int) < (b.headers.length : Int) - 1 - depth
+    · rw [prunedBranch_root_pos (branchOfFile (rootFile b)) hph hoff _ h0 (by show _ < ((b.headers.length : Nat) : Int); omega)]
+      refine ⟨((b.headers.length : Int) - 1 - depth).toNat, ?_, by omega, rfl⟩
+      unfold Branch.prunedLowest
+      simp only
+      have : (branchOfFile (rootFile b)).parentHeight = -1 := hph
+      omega
+    · rw [prunedBranch_root_nonpos (branchOfFile (rootFile b)) hph hoff _ (by omega)]
+      refine ⟨0, ?_, hL, by simp [bof_fields]⟩
+      unfold Branch.prunedLowest
+      have h1 : (branchOfFile (rootFile b)).parentHeight = -1 := hph
+      have h2 : (branchOfFile (rootFile b)).offset = 1 := hoff
+      omega
+  obtain ⟨lo, hlo1, hlo2, hlo3⟩ := hlo
+  -- the base height map
+  have hbase : ∀ id, (loadedBase rs b depth).heights.get? id = match posOf b.headers id with
+      | some k => if lo ≤ k then some (k : Int) else HMap.get? [(rs.cfg.genesisId, (0 : Int))] id
+      | none => HMap.get? [(rs.cfg.genesisId, (0 : Int))] id := by
+    intro id
+    unfold loadedBase
+    simp only
+    have hnd' : (((loadedRoot b depth).headers).map (·.hdr.id)).Nodup := by
+      rw [hlo3, List.map_drop]; exact hnd.sublist (List.drop_sublist _ _)
+    have := get?_foldl_zipIdx (loadedRoot b depth).headers hnd' (loadedRoot b depth).prunedLowest 0 [(rs.cfg.genesisId, 0)] id
+    rw [this]
+    have hp := posOf_drop b.headers hnd lo id
+    unfold posOf at hp ⊢
+    rw [hlo3, hp]
+    cases b.headers.findIdx? (fun d => d.hdr.id == id) with
+    | none => rfl
+    | some k =>
+      simp only
+      by_cases hk : lo ≤ k
+      · simp only [hk, ↓reduceIte, Option.some.injEq]
+        rw [hlo1]; omega
+      · simp only [hk, ↓reduceIte]
+  -- the genesis entry agrees with the chain
+  have hgid : ∀ id, HMap.get? [(rs.cfg.genesisId, (0 : Int))] id = some 0 → posOf b.headers id = some 0 := by
+    intro id hg
+    unfold HMap.get? at hg
+    simp only [List.lookup] at hg
+    by_cases he : id = rs.cfg.genesisId
+    · have hd0 : b.headers[0]? = some b.headers[0] := List.getElem?_eq_getElem hL
+      have := hgen _ hd0
+      unfold posOf
+      exact findIdx?_id_some b.headers id 0 _ hnd hd0 (by rw [he, this])
+    · have : (id == rs.cfg.genesisId) = false := by simpa using he
+      simp only [this] at hg; cases hg
+  have hgnone : ∀ id, HMap.get? [(rs.cfg.genesisId, (0 : Int))] id = none ∨
+      HMap.get? [(rs.cfg.genesisId, (0 : Int))] id = some 0 := by
+    intro id
+    unfold HMap.get?
+    simp only [List.lookup]
+    split <;> simp
+  -- read the historical heights
+  have hbr : (loadedBase rs b depth).br (loadedBase rs b depth).longest = loadedRoot b depth := rfl
+  unfold loadHistorical
+  dsimp only
+  rw [hbr, hlo1]
+  by_cases hz : lo = 0
+  · subst hz
+    have e1 : Int.tdiv ((0 : Nat) : Int) hpf = 0 := by simp
+    simp only [e1, Int.natCast_zero, Int.zero_mul, Int.sub_zero, and_self, ↓reduceIte]
+    refine ⟨_, rfl, rfl, rfl, rfl, rfl, rfl, rfl, rfl, rfl, ?_⟩
+    intro id
+    rw [hbase id]
+    cases hp : posOf b.headers id with
+    | none =>
+      simp only [Option.map_none]
+      rcases hgnone id with hn | hs
+      · exact hn
+      · have := hgid id hs; rw [hp] at this; cases this
+    | some k => simp
+  · have hpos : 0 < lo := by omega
+    have hfile : Int.tdiv (lo : Int) hpf = ((lo / H : Nat) : Int) := by rw [hpf_eq]; rfl
+    rw [hfile]
+    have hcond : ¬ ((lo : Int) - ((lo / H : Nat) : Int) * hpf = 0 ∧ ((lo / H : Nat) : Int) = 0) := by
+      rw [hpf_eq, hH]; omega
+    simp only [hcond, ↓reduceIte]
+    -- the first file to read
+    obtain ⟨sf, hsf, hsfle, hcover⟩ : ∃ sf : Nat,
+        (if (lo : Int) - ((lo / H : Nat) : Int) * hpf = 0 then ((lo / H : Nat) : Int) - 1 else ((lo / H : Nat) : Int)) = (sf : Int) ∧
+        sf ≤ b.headers.length / H ∧ lo ≤ (sf + 1) * H := by
+      by_cases hb0 : (lo : Int) - ((lo / H : Nat) : Int) * hpf = 0
+      · simp only [hb0, ↓reduceIte]
+        refine ⟨lo / H - 1, ?_, ?_, ?_⟩
+        · rw [hpf_eq, hH] at hb0; rw [hH]; omega
+        · rw [hH]; omega
+        · rw [hpf_eq, hH] at hb0; rw [hH]; omega
+      · simp only [hb0, ↓reduceIte]
+        refine ⟨lo / H, rfl, ?_, ?_⟩
+        · rw [hH]; omega
+        · rw [hH]; omega
+    rw [hsf]
+    simp only [Int.toNat_natCast]
+    obtain ⟨r3, hgo, h1, h2, h3, h4, h5, h6, h7, h8, hget⟩ := loadHistGo_spec b.headers hnd sf (sf + 1)
+      (loadedBase rs b depth) (Nat.le_refl _) (fun f hf => hfiles f (by omega))
+    rw [hgo]
+    refine ⟨r3, rfl, h1, h2, h3, h4, h5, h6, h7, h8, ?_⟩
+    intro id
+    rw [hget id]
+    cases hp : posOf b.headers id with
+    | none =>
+      simp only [Option.map_none]
+      rw [hbase id, hp]
+      simp only
+      rcases hgnone id with hn | hs
+      · exact hn
+      · have := hgid id hs; rw [hp] at this; cases this
+    | some k =>
+      simp only [Option.map_some]
+      by_cases hk : k < (sf + 1) * H
+      · simp only [hk, ↓reduceIte]; rfl
+      · simp only [hk, ↓reduceIte]
+        rw [hbase id, hp]
+        have : lo ≤ k := by omega
+        simp only [this, ↓reduceIte]; rfl
+
 end BRV.Repo
